@@ -1,8 +1,8 @@
 (* GenEq/Fb_io_flush.v — tie T1: the definition regenerated from /repo (Gen/FbGen.v, untracked, rebuilt on every run by rs2v + vlib/translate.py)
    equals the model definition the theorems are about. *)
-From FB Require Import Sem.Base Model.Fb GenEq.Tac.
+From FB Require Import Sem.Base Model.Fb Facets.Fb GenEq.Tac.
 From FB Require Gen.FbGen.
 Open Scope Z_scope.
 
-Lemma gen_eq : forall s, FbGen.io_flush s = Fb.io_flush s.
+Lemma gen_eq : forall SIZE chk s, Inv SIZE s -> FbGen.io_flush SIZE chk s = Fb.io_flush s.
 Proof. gen_eq. Qed.
